@@ -48,8 +48,8 @@ CLAIMED = {
              "seeded tape (1-4 processes, all bundle modes, memory/fileset/"
              "search output in pickle or NetCDF4, plain or gzip-compressed "
              "inputs, period cuts incl. exactly on file boundaries, coverage "
-             "set after a first search, one unreadable file; rarely a dense "
-             "file pair "
+             "set after a first search, one unreadable file (failing with an "
+             "OSError, a KeyError or an EOFError); rarely a dense file pair "
              "that takes the pre-binned search, with line pre-emption inside "
              "pool workers). The multiset of reported pairs is compared with a "
              "brute force over all points and every result - yielded or read "
@@ -81,8 +81,8 @@ CLAIMED = {
              "cache file's mtime is a harness-owned coarse clock (two versions "
              "within one tick carry the same stamp); a move between file systems "
              "is modelled as truncate + chunked copy + unlink; the FileSet may "
-             "be dropped before the interpreter's at-exit handlers run. Crash "
-             "points are "
+             "be dropped before the interpreter's at-exit handlers run, or its "
+             "cache reset by the user. Crash points are "
              "enumerated exhaustively per history; histories are sampled.",
         note="Crash = process death (completed syscalls persist, rename atomic, "
              "un-flushed user-space buffer lost); power-failure reordering is "
@@ -250,7 +250,9 @@ CLAIMED = {
              "stream is stateful and another thread may build an index at the "
              "same time; queries with thousands of points run inside the kernel "
              "with the pool seams; radii come as numbers, unit strings in "
-             "several spellings or small numpy scalars. Sampled, not "
+             "several spellings or small numpy scalars; a fifth of the queries "
+             "ask for pairs only (return_distance=False); an index with the "
+             "other metric may have been built first. Sampled, not "
              "enumerated.",
         note="Radii lie between distinct distance values (never within 1 mm of "
              "one) and do not exceed half the circumference for haversine; "
@@ -283,8 +285,10 @@ CLAIMED = {
              "inside typhon.topography (no download may happen); tiles a "
              "request needs may be put into the cache directory from outside "
              "right before it; rectangles may have no area; opening a cached "
-             "tile can fail once with EMFILE. Rectangles and histories are "
-             "sampled.",
+             "tile can fail once with EMFILE; both environment variables may "
+             "be set, and the resolved directory may be forgotten between two "
+             "requests (a child process resolving it again). Rectangles and "
+             "histories are sampled.",
         note="Overhangs of exactly one cell +-1e-9 deg are border cases (float "
              "image of an edge on a grid line); faults during extractall are "
              "not injected; in configuration (a) get_tile/download_tile are "
